@@ -474,6 +474,19 @@ func (v *vf) hasFidTest(fn *ssa.Function, pos ssa.Value) bool {
 				fa, ab := core.LoadedField(pr[0])
 				fb, pb := core.LoadedField(pr[1])
 				if fa == R.DFID && fb == R.PosFid && sameOrigin(pb, pos) {
+					// the comparison must decide something: a test whose branch was emptied is dead code
+					live := false
+					if bo.Referrers() != nil {
+						for _, r := range *bo.Referrers() {
+							switch r.(type) {
+							case *ssa.If, *ssa.Phi, *ssa.Return, *ssa.Store, *ssa.UnOp, *ssa.BinOp:
+								live = true
+							}
+						}
+					}
+					if !live {
+						continue
+					}
 					if f, _ := core.LoadedField(ab); f == R.DBActive {
 						return true
 					}
